@@ -3,6 +3,7 @@ package main
 
 import (
 	"go/token"
+	"go/types"
 
 	"golang.org/x/tools/go/ssa"
 )
@@ -69,4 +70,54 @@ func (g *Gen) callPrivate(a *ssa.Alloc) bool {
 		return true
 	}
 	return ok(a)
+}
+
+// invariantStoreTarget: the store writes an element of a slice / a scalar field of an object whose
+// reference is an SSA value defined OUTSIDE the loop body (so it is the same object in every iteration).
+func (g *Gen) invariantStoreTarget(addr ssa.Value, body map[*ssa.BasicBlock]bool) (comp, ref string, ok bool) {
+	outside := func(v ssa.Value) bool {
+		switch x := v.(type) {
+		case *ssa.Parameter, *ssa.Const, *ssa.Global, *ssa.FreeVar:
+			return true
+		case ssa.Instruction:
+			return !body[x.Block()]
+		}
+		return false
+	}
+	if _, tracked := g.fr.lv[addr]; tracked {
+		if l := g.fr.lv[addr]; l.kind == "local" {
+			return "", "", false
+		}
+	}
+	switch x := addr.(type) {
+	case *ssa.IndexAddr:
+		if st, isSlice := x.X.Type().Underlying().(*types.Slice); isSlice && outside(x.X) {
+			if _, have := g.fr.val[x.X]; have || isParam(x.X) {
+				c, _ := g.memComp(st.Elem())
+				return c, "(base " + g.term(x.X) + ")", true
+			}
+		}
+	case *ssa.FieldAddr:
+		pt, isPtr := x.X.Type().Underlying().(*types.Pointer)
+		if !isPtr || !outside(x.X) {
+			return "", "", false
+		}
+		if _, isLv := g.fr.lv[x.X]; isLv {
+			return "", "", false
+		}
+		stt, isStruct := pt.Elem().Underlying().(*types.Struct)
+		if !isStruct || isAggregate(stt.Field(x.Field).Type()) {
+			return "", "", false
+		}
+		if _, have := g.fr.val[x.X]; have || isParam(x.X) {
+			c, _ := g.fieldComp(pt.Elem(), x.Field)
+			return c, g.term(x.X), true
+		}
+	}
+	return "", "", false
+}
+
+func isParam(v ssa.Value) bool {
+	_, ok := v.(*ssa.Parameter)
+	return ok
 }
